@@ -33,6 +33,7 @@ class TCPServer:
         self.idle_task = TrioSingleTask()
         self.stream = stream
         self.state = state
+        self.finished = False  # Nothing more to be read or written
 
     def __await__(self) -> Generator[Any, None, None]:
         return self.run().__await__()
@@ -73,6 +74,9 @@ class TCPServer:
                 await self.protocol.initiate()
                 await self.idle_task.restart(self._task_group, self._idle_timeout)
                 await self._read_data()
+                # The connection is over, the idle timer must not keep it
+                self.finished = True
+                await self.idle_task.stop()
         except OSError:
             pass
         finally:
@@ -86,12 +90,13 @@ class TCPServer:
                         cancel_scope.shield = True
                         await self.stream.send_all(event.data)
                 except (trio.BrokenResourceError, trio.ClosedResourceError):
+                    self.finished = True
                     await self.protocol.handle(Closed())
         elif isinstance(event, Closed):
             await self._close()
             await self.protocol.handle(Closed())
         elif isinstance(event, Updated):
-            if event.idle:
+            if event.idle and not self.finished:
                 await self.idle_task.restart(self._task_group, self._idle_timeout)
             else:
                 await self.idle_task.stop()
